@@ -706,14 +706,26 @@ func (e *Ev) callPick(x *ast.CallExpr, p VFuncPick) Val {
 // the result is membership of s in the language (?s)[chars] (second assumed characterisation of the
 // same function; lets P2 lemmas talk about it).
 func (e *Ev) anyOfFact(x *ast.CallExpr, fn *types.Func, r Val) {
-	if fn.Pkg() == nil || fn.Pkg().Path() != "strings" || fn.Name() != "ContainsAny" || len(x.Args) != 2 {
+	if fn.Pkg() == nil || fn.Pkg().Path() != "strings" || (fn.Name() != "ContainsAny" && fn.Name() != "ContainsRune") || len(x.Args) != 2 {
 		return
 	}
 	tv := e.info.Types[x.Args[1]]
-	if tv.Value == nil || tv.Value.Kind() != constant.String {
+	if tv.Value == nil {
 		return
 	}
-	chars := constant.StringVal(tv.Value)
+	var chars string
+	switch tv.Value.Kind() {
+	case constant.String:
+		chars = constant.StringVal(tv.Value)
+	case constant.Int:
+		n, _ := constant.Int64Val(tv.Value)
+		if n < 0 || n >= 0x80 {
+			return
+		}
+		chars = string(rune(n))
+	default:
+		return
+	}
 	name := "anyof"
 	var cls strings.Builder
 	for i := 0; i < len(chars); i++ {
